@@ -318,7 +318,7 @@ def run_query(pid, q, tier, keep=False, verbose=False):
             res["status"] = "timeout"
             return res
         pj = parse_json(out)
-        if pj is None or pj["results"] is None:
+        if rc not in (0, 10) or pj is None or pj["results"] is None:
             res["status"] = "cbmc-error"
             res["error"] = (out[-1500:] + "\n" + (err or "")[-1500:])
             return res
@@ -332,6 +332,11 @@ def run_query(pid, q, tier, keep=False, verbose=False):
                                       if f["kind"] in ("unwind", "nobody", "model"))[:1500]
             return res
         res["status"] = "fail" if fails else "pass"
+        if not fails and ok != total:
+            # some properties are neither SUCCESS nor FAILURE (UNKNOWN/ERROR): never a pass
+            res["status"] = "cbmc-error"
+            res["error"] = "%d of %d properties undecided" % (total - ok, total)
+            return res
         # witness twin
         if not q.nowitness and not fails:
             gbw, err = build(q, wd, True)
@@ -487,6 +492,7 @@ def check(pid, tier, only=None, keep=False, verbose=False):
     broken = []
     inconclusive_stretch = []
     nvi = 0
+    seen_sites = set()
     for r in results:
         q = r["_q"]
         st = r["status"]
@@ -502,6 +508,9 @@ def check(pid, tier, only=None, keep=False, verbose=False):
                 if f["kind"] == "ptrarith":
                     continue  # reported separately in evidence, never exit 1 (DESIGN 1)
                 key = finding_key(f)
+                if (r["query"], key) in seen_sites:
+                    continue
+                seen_sites.add((r["query"], key))
                 hit = None
                 for site, text in known_here:
                     if site == key:
